@@ -65,6 +65,53 @@ fn rerun_req(input: &str) -> Option<String> {
     req_check(f[0].parse().unwrap(), p(f[1]), p(f[2]), if f[3] == "-" { None } else { Some(f[3].parse().unwrap()) }, p(f[4]))
 }
 
+
+// ---------------- C09: bounded-exhaustive request tuples on small writers ----------------
+type Req = (usize, Option<(u64, u64)>, Option<(u64, u64)>, Option<u64>, Option<(u64, u64)>);
+/// all tuples for a writer of n blocks: block xor hash (index 0..=n+1 resp. 0..=2n+1, nodes 0..=2) or neither, seek absent or 0..=bytes+1,
+/// upgrade absent or (start 0..=n, length 0..=n+1). One writer per n, shared by all calls (create_proof must leave it usable).
+fn exhaustive_for(n: usize, stride: usize, phase: usize) -> Option<String> {
+    let cur: std::sync::Arc<std::sync::Mutex<Option<Req>>> = Default::default();
+    let cur2 = cur.clone();
+    let (tx, rx) = std::sync::mpsc::channel();
+    std::thread::spawn(move || {
+        let r = guarded(move || -> Option<String> {
+            let mut w = match writer(n) { Ok(w) => w, Err(e) => return Some(format!("setup: {e}")) };
+            let nn = n as u64;
+            let total = w.info().byte_length;
+            let mut idx: Vec<(Option<(u64, u64)>, Option<(u64, u64)>)> = vec![(None, None)];
+            for i in 0..=nn + 1 { for k in 0..=2 { idx.push((Some((i, k)), None)); } }
+            for i in 0..=2 * nn + 1 { for k in 0..=2 { idx.push((None, Some((i, k)))); } }
+            let mut seeks: Vec<Option<u64>> = vec![None];
+            for b in 0..=total + 1 { seeks.push(Some(b)); }
+            let mut ups: Vec<Option<(u64, u64)>> = vec![None];
+            for s in 0..=nn { for l in 0..=nn + 1 { ups.push(Some((s, l))); } }
+            let mut c = 0usize;
+            for (b, h) in idx.iter() { for s in seeks.iter() { for u in ups.iter() {
+                c += 1;
+                if c % stride != phase { continue; }
+                *cur2.lock().unwrap() = Some((n, *b, *h, *s, *u));
+                let _ = block_on(w.create_proof(b.map(|x| RequestBlock { index: x.0, nodes: x.1 }), h.map(|x| RequestBlock { index: x.0, nodes: x.1 }),
+                    s.map(|x| RequestSeek { bytes: x }), u.map(|x| RequestUpgrade { start: x.0, length: x.1 })));
+                if w.info().length != nn { return Some("length changed by create_proof".to_string()); }
+            } } }
+            if n > 0 { if let Err(e) = block_on(w.get(0)) { return Some(format!("core unusable afterwards: {e}")); } }
+            None
+        });
+        let _ = tx.send(r);
+    });
+    let why = match rx.recv_timeout(std::time::Duration::from_secs(600)) { Ok(Ok(None)) => return None, Ok(Ok(Some(m))) => m, Ok(Err(p)) => format!("panic: {p}"), Err(_) => "no result within 600 s (non-termination)".to_string() };
+    let f = cur.lock().unwrap().clone().unwrap_or((n, None, None, None, None));
+    Some(format!("{{\"writer_blocks\":{},\"block\":{:?},\"hash\":{:?},\"seek\":{:?},\"upgrade\":{:?},\"why\":\"{}\"}}|{}", f.0, f.1, f.2, f.3, f.4, why, ser_req(&f)))
+}
+fn search_exhaustive(rng: &mut Rng, budget: usize) -> Option<String> {
+    // budget scales the scope: quick-size budgets sample every 16th tuple of n <= 5, the thorough tier runs every tuple of n <= 7
+    let (maxn, stride) = if budget >= 400 { (7usize, 1usize) } else if budget >= 100 { (6, 4) } else { (5, 16) };
+    let phase = (rng.below(stride as u64)) as usize;
+    for n in 0..=maxn { if let Some(m) = exhaustive_for(n, stride, phase) { return Some(m); } }
+    None
+}
+
 // ---------------- C09: verify_and_apply_proof on structurally arbitrary proofs ----------------
 fn node(i: u64, len: u64) -> Node { Node::new(i, vec![(i % 251) as u8 + 1; 32], len) }
 #[derive(Debug, Clone)]
@@ -193,6 +240,9 @@ pub fn contracts() -> Vec<Contract> {
         Contract { name: "proofs.requests_no_panic", covers: &["MerkleTree::create_valueless_proof", "Hypercore::create_proof", "Hypercore::create_valueless_proof", "fn nodes_to_root", "MerkleTree::upgrade_proof",
             "MerkleTree::block_and_seek_proof", "MerkleTree::seek_proof", "MerkleTree::additional_upgrade_proof", "MerkleTree::seek_from_head", "MerkleTree::seek_untrusted_tree", "MerkleTree::seek_trusted_tree", "fn normalize_indexed"],
             search: search_requests, rerun: rerun_req },
+        Contract { name: "proofs.requests_exhaustive_small", covers: &["MerkleTree::create_valueless_proof", "Hypercore::create_proof", "Hypercore::create_valueless_proof", "fn nodes_to_root", "MerkleTree::upgrade_proof",
+            "MerkleTree::block_and_seek_proof", "MerkleTree::seek_proof", "MerkleTree::additional_upgrade_proof", "MerkleTree::seek_from_head", "MerkleTree::seek_untrusted_tree", "MerkleTree::seek_trusted_tree", "fn normalize_indexed"],
+            search: search_exhaustive, rerun: rerun_req },
         Contract { name: "proofs.arbitrary_proofs_refused", covers: &["MerkleTree::verify_proof", "fn verify_tree", "fn verify_upgrade", "NodeQueue::shift", "NodeQueue::new", "Hypercore::verify_and_apply_proof", "Hypercore::verify_proof",
             "MerkleTreeChangeset::append_root", "MerkleTreeChangeset::verify_and_set_signature", "MerkleTree::byte_offset_in_changeset", "fn normalize_data"],
             search: search_proofs, rerun: rerun_proof },
